@@ -34,7 +34,7 @@ def pairwise_configs():
 
 def plan(tier, seed, models=None, extra_default=True):
     """list of (model, cfg) runs: every model under the default configuration + a rotation of the pairwise set"""
-    names = [m for m in h_solve.MODELS if models is None or m in models]
+    names = [m for m in h_solve.MODELS if (models is None or m in models) and not (tier == "quick" and h_solve.MODELS[m].get("thorough_only"))]
     pw = pairwise_configs()
     rnd = random.Random(seed)
     rnd.shuffle(pw)
